@@ -156,6 +156,7 @@ def judge(ctx, c, answers):
     k = c['kind']
     it = iter(answers)
     res = []
+    timed_out = False
     if k == 'dfa':
         D = enc.build_dfa(c['X'])
         for w in ws:
@@ -202,6 +203,7 @@ def judge(ctx, c, answers):
         GambaTools.pda_epsilon_closure_max_iterations = 12
         try:
             for w in ws:
+                res.append(w)
                 acc = oracles.pda_accepts(P, w)
                 from gambatools.pda_algorithms import pda_accepts_word
                 says = call(pda_accepts_word, P, w, limit=5).get('ok')
@@ -211,6 +213,7 @@ def judge(ctx, c, answers):
                     # a stack-growing epsilon cycle can make the unbounded path search run forever: documented partial clause
                     if got.get('err') == 'fuel':
                         ctx.count('pda:path-search-timeout')
+                        timed_out = True
                         for s in c['scheds']:
                             next(it)
                         continue
@@ -220,7 +223,8 @@ def judge(ctx, c, answers):
                     err = check_pda_trace(P, w, tr)
                     if err or not acc:
                         ctx.violation('pda-trace', {'case': sub, 'problem': err or 'trace for a rejected word', 'impl': tr})
-                    res.append(True)
+                    # whether a trace is found for an accepted word whose epsilon closure is cut by the iteration limit may depend
+                    # on the pop order (the property allows it), so trace presence is not compared across hash seeds
                 elif says:
                     ctx.violation('pda-trace', {'case': sub, 'problem': 'accepted (same limit) but no trace'})
                 for s in c['scheds']:
@@ -259,7 +263,8 @@ def judge(ctx, c, answers):
                 ctx.violation('cfg-derivation', {'case': dict(kind=k, X=c['X'], w=w, type='any'), 'problem': "'any' differs from leftmost"})
         if enc.cfg_to_spec(G) != before:
             ctx.violation('argument-mutated', {'case': c})
-    ctx.record('%s/%s' % (k, core.digest(c['X'])), res)
+    if not timed_out:        # a wall-clock cut is not an outcome of the code: such a case is not compared across hash seeds
+        ctx.record('%s/%s' % (k, core.digest(c['X'])), res)
 
 
 def run(ctx):
